@@ -20,3 +20,16 @@ CLAIMS["C05"] = dict(
          "consistent memory; exhaustive only within the model's bounds (3 actors, <= 3 operations each, one cancel).",
     design_ref="DESIGN.md §6 C05",
 )
+
+CLAIMS["C10"] = dict(
+    text="Semaphore.tla / SyncFlag.tla (literal models of semphore.rs and sync_flag.rs over the SyncBlocker hand-shake, "
+         "timed waits driven by a virtual clock, one cancellable waiter) are checked exhaustively by TLC: never overdrawn, "
+         "conservation at every quiescent state (value = initial + posts - successful waits, nobody parked while a permit "
+         "exists), never-empty pop, deadlock-freedom up to legitimately blocked untimed waits; latch monotonicity for SyncFlag. "
+         "TLC behaviours (incl. Tick = the timer of the earliest deadline fires, and cancel) are replayed into the real "
+         "Semphore/SyncFlag with coroutine and thread actors; seeded and preemption-bounded schedules are explored; an "
+         "arithmetic/hang/early-timeout oracle judges every execution.",
+    note="Assumes AbsBlocker (C02) and timer contract (C08) for the layer below; crossbeam SegQueue trusted; sequentially "
+         "consistent memory; exhaustive only within the model's bounds (3-4 actors, <= 3 operations each).",
+    design_ref="DESIGN.md §6 C10",
+)
